@@ -65,6 +65,7 @@ def Classified : List Entry := [
   ⟨"Scope.CloneScope", 0, .mapCopy⟩,
   ⟨"HashCountKeys", 0, .commutativeFold⟩,
   ⟨"HashIsEmpty", 0, .constantOnHit⟩,
+  ⟨"fillHashByKind", 0, .constantOnHit⟩,               -- fix C10-04: struct held by value; the hit value ignores the loop variable
   ⟨"SexpToGo", 0, .errorChoiceOnly⟩,
   ⟨"SexpToGoStructs", 0, .errorChoiceOnly⟩,
   ⟨"SexpToGoStructs", 1, .errorChoiceOnly⟩,
@@ -111,7 +112,7 @@ theorem inventory_complete :
 element to the next) occur only in walks whose justification accounts for them. -/
 theorem inventory_valueCalls :
     ∀ site ∈ mapRanges, site.valueCalls = true →
-      classOf site = .errorChoiceOnly ∨ site.func = "Scope.Show" := by
+      classOf site = .errorChoiceOnly ∨ site.func = "Scope.Show" ∨ site.func = "fillHashByKind" := by
   decide
 
 /-- The table is not empty and ids are unique (otherwise `classOf` would be ambiguous). -/
@@ -305,6 +306,32 @@ theorem perm_invariant_hashIsEmpty {P} {b₁ b₂ : List (Nat × List P)} (p : b
   constructor
   · intro h x hx; exact h x (p.mem_iff.mpr hx)
   · intro h x hx; exact h x (p.mem_iff.mp hx)
+
+theorem structByValueScan_eq {R} (reg : List (String × (Bool × Nat))) (goType : Nat) (onHit miss : R) :
+    structByValueScan reg goType onHit miss
+      = if reg.any (fun e => e.2.1 && e.2.2 == goType) then onHit else miss := by
+  induction reg with
+  | nil => simp [structByValueScan]
+  | cons x rest ih =>
+    obtain ⟨n, hs, tc⟩ := x
+    by_cases h : (hs && tc == goType) = true
+    · simp [structByValueScan, h]
+    · simp only [structByValueScan, h, List.any_cons, ih, Bool.false_or]
+      rfl
+
+/-- **fillHashByKind, struct held by value**: the walk leaves on the first matching
+registration, but what it returns (`fillHashHelper` of the value itself) does not depend on
+which registration matched, so any iteration order of the registry gives the same result —
+for every registry, also one that registers a Go type under several names. The call in value
+position that the extractor flags (`valueCalls`) is that `onHit`. -/
+theorem perm_invariant_structByValueScan {R} {r₁ r₂ : List (String × (Bool × Nat))}
+    (p : r₁.Perm r₂) (goType : Nat) (onHit miss : R) :
+    structByValueScan r₁ goType onHit miss = structByValueScan r₂ goType onHit miss := by
+  rw [structByValueScan_eq, structByValueScan_eq, p.any_eq]
+
+example : structByValueScan [("a", (false, 3)), ("B", (true, 3)), ("b", (true, 3))] 3 "rec" "nil" = "rec"
+    ∧ structByValueScan [("b", (true, 3)), ("a", (false, 3)), ("B", (true, 3))] 3 "rec" "nil" = "rec" := by
+  decide
 
 /-- **fillHashHelper after fix 01**: the record's type name does not depend on the order
 in which the registry map would be iterated — the walk goes over the registration-ordered
